@@ -874,12 +874,15 @@ class TrajectoryLength3(Contract):
         S.terms(0, S.num_segments_ - 1, S.num_segments_, S.sk(0) + 1)
         S.assigns(*[S.v(x) for x in CACHE_STATE])
         S.ensures(S.result >= 0, 'length_is_non_negative')
+        S.ensures(implies(e.eq(s), S.result.eq(0)), 'empty_interval_has_zero_length')
+        S.terms(1)
         S.ensures(table_inv(S), 'table')
         for p in cache_inv(S, inst=[S.sk(0)]):
             S.ensures(p, 'cache')
         S.loop(0, inv=lambda L: [
             ('range', (L.i >= 0) & (L.i <= L.time_sequence.size() - 1)),
             ('partial_sum_non_negative', L.total_length >= 0),
+            ('nothing_added_on_an_empty_interval', implies(L.i.eq(0), L.total_length.eq(0))),
             ('table', table_inv(S)),
         ] + [('cache', p) for p in cache_inv(S, inst=[S.sk(0)])], variant=lambda L: L.time_sequence.size() - 1 - L.i,
             terms=lambda L: [L.i, L.i + 1])
